@@ -52,7 +52,7 @@ def stepDpop (j : Json) : String :=
   let i := jObj j "in"
   let pin : Dpop.ParseIn :=
     { jwsOk := jBool i "jwsOk", nSigs := jNat i "nSigs", algSupported := jBool i "algSupported", typ := jStr i "typ",
-      hasJwk := jBool i "hasJwk", jwkPrivate := jBool i "jwkPrivate", jwtOk := jBool i "jwtOk", iatZero := jBool i "iatZero",
+      hasJwk := jBool i "hasJwk", jwkPrivate := jBool i "jwkPrivate", algFitsKey := jBool i "algFitsKey", jwtOk := jBool i "jwtOk", iatZero := jBool i "iatZero",
       htu := optClaim (jObj i "htu"), htm := optClaim (jObj i "htm"), jtiLen := jNat i "jtiLen" }
   let up := urlParse (jObj j "urls")
   match Dpop.parse c pin with
